@@ -379,7 +379,13 @@ impl SignedPacketStore {
             .send(Message::Get { key: *key, res: tx })
             .await
             .anyerr()?;
-        rx.await.anyerr()
+        let res = rx.await.anyerr();
+        // the store actor has answered with a packet; the caller has not looked at it yet
+        #[cfg(feature = "verif-hooks")]
+        if matches!(res, Ok(Some(_))) {
+            crate::verif_hooks::sched::pause("signedpacketstore.get.after_read").await;
+        }
+        res
     }
 
     #[cfg(test)]
